@@ -430,8 +430,10 @@ def run(facts, cg=None):
                 fl = r['flags']
                 force = any(v for k, v in fl.items() if k.endswith('force_create'))
                 seed = any(v for k, v in fl.items() if k.endswith('seed_output'))
-                if is_temp:
+                if is_temp and b.id not in compress_region:
                     continue
+                # (compress: its scratch file is treated as its output is - a file that is already there, be it the input itself
+                # under the derived name, a symbolic link or the scratch file of a concurrent run, is replaced only when asked to: F17)
                 if 'append' in eff:
                     finding(b.q, 'append:' + str(ch['path']), 'output %s opened in append mode' % ch['path'])
                 if not force and not seed and 'create_new' not in eff:
